@@ -39,7 +39,6 @@ use dmntk_feel::values::{Value, Values, VALUE_FALSE, VALUE_TRUE};
 use dmntk_feel::{value_null, FeelDate, FeelDateTime, FeelDaysAndTimeDuration, FeelNumber, FeelTime, FeelYearsAndMonthsDuration, Name, Scope, ToFeelString};
 use regex::Regex;
 use std::borrow::Borrow;
-use std::cmp::Ordering;
 use std::convert::TryFrom;
 
 /// Builds null value with invalid argument type message.
@@ -910,23 +909,16 @@ pub fn sort(list: &Value, ordering_function: &Value) -> Value {
   if let Value::List(items) = list.clone() {
     if let Value::FunctionDefinition(parameters, body, _) = ordering_function {
       if parameters.len() == 2 {
-        let mut elements = items.as_vec().clone();
-        elements.sort_by(|x, y| {
+        // the ordering function is written in FEEL: it may answer null or be no total order at all, which the
+        // standard library's sort does not tolerate (it may panic), so a merge sort that assumes nothing is used
+        let mut precedes = |x: &Value, y: &Value| -> bool {
           let mut ctx = FeelContext::default();
           ctx.set_entry(&parameters[0].0, x.clone());
           ctx.set_entry(&parameters[1].0, y.clone());
           let scope: Scope = ctx.into();
-          if let Value::Boolean(result) = body.evaluate(&scope) {
-            if result {
-              Ordering::Less
-            } else {
-              Ordering::Equal
-            }
-          } else {
-            Ordering::Equal
-          }
-        });
-        Value::List(Values::new(elements))
+          matches!(body.evaluate(&scope), Value::Boolean(true))
+        };
+        Value::List(Values::new(merge_sort_by_precedes(items.as_vec().clone(), &mut precedes)))
       } else {
         value_null!("sort: ordering function should take exactly two arguments")
       }
@@ -936,6 +928,34 @@ pub fn sort(list: &Value, ordering_function: &Value) -> Value {
   } else {
     value_null!("sort: expected a list of values as a first argument")
   }
+}
+
+/// Stable merge sort driven by a `precedes` predicate: an item of the right half is taken before an item
+/// of the left half only when it strictly precedes it.
+fn merge_sort_by_precedes(mut items: Vec<Value>, precedes: &mut dyn FnMut(&Value, &Value) -> bool) -> Vec<Value> {
+  if items.len() < 2 {
+    return items;
+  }
+  let right = items.split_off(items.len() / 2);
+  let left = merge_sort_by_precedes(items, precedes);
+  let right = merge_sort_by_precedes(right, precedes);
+  let mut merged = Vec::with_capacity(left.len() + right.len());
+  let (mut left, mut right) = (left.into_iter().peekable(), right.into_iter().peekable());
+  loop {
+    match (left.peek(), right.peek()) {
+      (Some(l), Some(r)) => {
+        if precedes(r, l) && !precedes(l, r) {
+          merged.push(right.next().unwrap());
+        } else {
+          merged.push(left.next().unwrap());
+        }
+      }
+      (Some(_), None) => merged.push(left.next().unwrap()),
+      (None, Some(_)) => merged.push(right.next().unwrap()),
+      (None, None) => break,
+    }
+  }
+  merged
 }
 
 ///
